@@ -1,0 +1,21 @@
+//go:build verif
+
+package window
+
+import "time"
+
+// Accessors for the verification harness (/verif). Compiled only with -tags verif.
+
+// VerifCountingBuffered returns the number of rows currently waiting in all per-key buffers.
+func VerifCountingBuffered(cw *CountingWindow) int {
+	cw.mu.Lock()
+	defer cw.mu.Unlock()
+	n := 0
+	for _, b := range cw.keyedBuffer {
+		n += len(b)
+	}
+	return n
+}
+
+// VerifCountingReap runs the STATETTL reaper once with the given clock value.
+func VerifCountingReap(cw *CountingWindow, now time.Time) { cw.reapIdleKeys(now) }
